@@ -324,3 +324,63 @@ def inline_new(raws, reference):
     for p in removed:
         del raws[p]
     return {"inlined": inlined, "removed": removed, "skipped": skipped}
+
+
+# ---------------------------------------------------------------------------
+# renamed / moved functions
+
+
+def reference_meta():
+    with open(REFERENCE) as fh:
+        return json.load(fh).get("meta", {})
+
+
+def _rename_strings(x, pairs, rx):
+    if isinstance(x, str):
+        if any(n in x for n, _ in pairs):
+            return rx.sub(lambda m: dict(pairs)[m.group(1)], x)
+        return x
+    if isinstance(x, list):
+        return [_rename_strings(y, pairs, rx) for y in x]
+    if isinstance(x, dict):
+        return {k: _rename_strings(v, pairs, rx) for k, v in x.items()}
+    return x
+
+
+def alias_renamed(raws, reference, meta):
+    """A reference function that is gone while exactly one new function of the same crate has its signature, impl type and trait
+    was renamed or moved to another module - a change of spelling, not of behaviour.  The new path is rewritten to the reference
+    path everywhere in the facts (bodies, callees, closure paths, function-item constants), so that every anchor still finds it
+    and the inliner does not treat it as an extracted helper.  Ambiguous cases (several candidates) are left alone.
+    Returns [[new path, reference path]]."""
+    import re
+    cur = {p for p, r in raws.items() if r["kind"] in ("Fn", "AssocFn")}
+    missing = [p for p in reference if p not in cur and p in meta]
+    new = [p for p in cur if p not in reference]
+    if not missing or not new:
+        return []
+    pairs = []
+    taken = set()
+    for m in sorted(missing):
+        crate, sig, impl_self, trait = meta[m]
+        if trait:
+            continue
+        # the signature text of a method names its impl type by path: compare with the module part of paths removed
+        def norm(s):
+            return re.sub(r"\b(?:[a-z_][a-z0-9_]*::)+", "", s or "")
+        cands = [n for n in new if n not in taken and raws[n].get("_crate") == crate and norm(raws[n].get("sig")) == norm(sig)
+                 and norm(raws[n].get("impl_self")) == norm(impl_self) and not (raws[n].get("impl_trait") or raws[n].get("trait_default_of"))]
+        same_name = [n for n in cands if n.rsplit("::", 1)[-1] == m.rsplit("::", 1)[-1]]
+        if len(same_name) == 1:
+            cands = same_name
+        if len(cands) == 1:
+            pairs.append((cands[0], m))
+            taken.add(cands[0])
+    if not pairs:
+        return []
+    rx = re.compile("(" + "|".join(re.escape(n) for n, _ in sorted(pairs, key=lambda x: -len(x[0]))) + r")(?![A-Za-z0-9_])")
+    for p in list(raws):
+        r = raws.pop(p)
+        r2 = _rename_strings(r, pairs, rx)
+        raws[r2["path"]] = r2
+    return [[n, m] for n, m in pairs]
